@@ -112,7 +112,7 @@ impl Property for C08 {
     }
     fn strategy(&self, _tier: Tier) -> BoxedStrategy<Case> {
         let pair = (lang_strategy(), 1u64..100, 0u64..100, any::<bool>(), choices(), choices()).prop_map(|(lang, a, b, conj, ca, cb)| Case { lang, kind: "pair".into(), a, b, conj, ca, cb, d: String::new(), zsel: vec![] });
-        let dict = (lang_strategy(), prop_oneof![1 => "[0-9]{1,4}", 3 => "[0-9]{5,8}", 2 => "[0-9]{0,3}0{1,3}[0-9]{0,3}0{0,2}"], proptest::collection::vec(any::<u8>(), 0..8))
+        let dict = (lang_strategy(), prop_oneof![1 => "[0-9]{1,4}", 3 => "[0-9]{5,8}", 2 => "[0-9]{0,3}0{1,3}[0-9]{0,3}0{0,2}", 1 => "0{4,8}[0-9]{0,2}", 1 => "[1-9]0{4,7}", 1 => "[0-9]{0,2}0{4,6}[0-9]{0,2}"], proptest::collection::vec(any::<u8>(), 0..8))
             .prop_map(|(lang, d, zsel)| Case { lang, kind: "dictation".into(), a: 0, b: 0, conj: false, ca: vec![], cb: vec![], d, zsel });
         prop_oneof![3 => pair, 1 => dict].boxed()
     }
@@ -187,7 +187,7 @@ impl Property for C08 {
         let lg = lang(&c.lang);
         let l = c.lang.as_str();
         if c.kind == "dictation" {
-            if c.d.is_empty() {
+            if c.d.is_empty() || c.d.len() > 8 {
                 return Ok(());
             }
             let lone = c.d.len() == 1;
